@@ -119,6 +119,10 @@ BYTES_POOL = [b"", b"a", b"A", b"ab", b"abc", b"abd", b"b", b"\x00", b"\xff", b"
 V4_POOL = [0, 1, 0x0A000001, 0x7F000001, 0xC0A80001, 0xFFFFFFFE, 0xFFFFFFFF]
 V6_POOL = [0, 1, 0xFFFF00000000 | 0x0A000001, 1 << 64, (0x20010DB8 << 96) | 1, (1 << 128) - 1]
 KEY_POOL = [b"", b"a", b"b", b"host", b"Host", "é".encode(), b"k1", b"k2"]
+# patterns for the "regex" feature: no '"' inside a class, no trailing backslash, ASCII only (the
+# model's regex subset, see C11)
+REGEX_POOL = [b"a", b"a.b", b"^ab+c$", b"[a-c]+x", b"a|bc", b"(ab)*c", b"a\\d", b"\\x41", b"e+", b"", b"a\"b", b"[^x]y?"]
+WILDCARD_POOL = [b"a*", b"*", b"", b"a*b*c", b"A\\*B", b"?x*", "é*".encode(), b"ab", b"\\\\*", b"\xffa*"]
 
 
 def gen_prim(rng, t):
@@ -374,6 +378,22 @@ def render_cmp(sch, lhs, op, lay):
         return l + lay.sp() + "in" + lay.sp() + "{" + lay.osp() + lay.sp().join(items) + lay.osp() + "}"
     if kind == "inlist":
         return l + lay.sp() + "in" + lay.sp() + "$" + op[2].decode()
+    if kind == "matches":
+        # ("matches", pattern[, ("raw", n)]): a quoted regex literal only un-escapes \" (outside a class)
+        o = lay.alias("matches")
+        pre = lay.sp() if is_word(o) else lay.osp()
+        post = lay.sp() if is_word(o) else lay.osp()
+        pat = op[1].decode("utf-8")
+        if len(op) > 2:
+            n = op[2][1]
+            lit = "r" + "#" * n + '"' + pat + '"' + "#" * n
+        else:
+            lit = '"' + pat.replace('"', '\\"') + '"'
+        return l + pre + o + post + lit
+    if kind == "wildcard":
+        # ("wildcard", strict, pattern[, fmt])
+        word = "strict wildcard" if op[1] else "wildcard"
+        return l + lay.sp() + word + lay.sp() + render_bytes(op[2], op[3] if len(op) > 3 else None, lay.rng)
     raise ValueError(op)
 
 
@@ -606,8 +626,19 @@ class Gen:
                     l = lit_bytes(rng, gen_prim(rng, "bytes")[1])
                     items.append(l[1] if len(l) == 2 else (l[1], l[2]))
                 return ("in-bytes", tuple(items))
-            if "inlist" in self.f and self.sch.list_index("bytes") is not None:
+            if "inlist" in self.f and self.sch.list_index("bytes") is not None and ("regex" not in self.f or r < 0.95):
                 return ("inlist", self.sch.list_index("bytes"), rng.choice([b"l1", b"l2.x", b"empty_1", b"nope"]))
+            if "regex" in self.f:
+                # matches / wildcard / strict wildcard (feature "regex", used by C07)
+                if rng.random() < 0.5:
+                    pat = rng.choice(REGEX_POOL)
+                    n = rng.choice([None, None, 0, 1, 2])
+                    if n is not None and raw_ok(pat, n):
+                        return ("matches", pat, ("raw", n))
+                    return ("matches", pat)
+                pat = rng.choice(WILDCARD_POOL)
+                f = choose_fmt(rng, pat, allow_byte=False)
+                return ("wildcard", rng.random() < 0.4, pat) + (() if f is None else (f,))
             return ("ord", rng.choice(ords), lit_bytes(rng, gen_prim(rng, "bytes")[1]))
         if t == "ip":
             if r < 0.7:
